@@ -11,7 +11,8 @@ LEVEL = "exploration"
 RULE = ("exhaustive: every one of the 64000 character triples through '.rad50' (random letter case), every ^R literal of "
         "1-3 alphabet characters (60879 forms), strings of 0-12 characters incl. <n> codes 0-63, every non-alphabet "
         "ASCII character and over-long ^R literals as rejection cases; distinct = distinct triples / literals / strings")
-ASSUMPTIONS = ["the RADIX-50 alphabet is the DEC one: space, A-Z, $, ., %, 0-9 (written out in the checker, not imported)"]
+ASSUMPTIONS = ["the RADIX-50 alphabet is the DEC one: space, A-Z, $, ., %, 0-9 (written out in the checker, not imported)",
+               "'folding case' applies to the ASCII letters a-z; a non-ASCII character whose Unicode upper-case form is an ASCII letter (U+017F, U+0131, U+212A) is outside the alphabet"]
 DECIDING_COUNTERS = ["triples_rad50", "literals_R", "strings", "rejections_expected"]
 MIN_DISTINCT = 1000
 
@@ -176,13 +177,10 @@ def run_shard(spec):
             ch = chr(c)
             if ch.isspace() or ch in "\x85\u2028\u2029\x1c\x1d\x1e\x1f":
                 continue
-            folds = {f for f in (ch.upper(), ch.lower().upper(), ch.casefold().upper()) if len(f) == 1 and f in ALPHABET}
-            if folds:
-                rej.append({"kind": "amb_char", "ch": ch, "pos": c % 3, "folds": sorted(folds)})
-                rej.append({"kind": "amb_R", "ch": ch, "folds": sorted(folds)})
-            else:
-                rej.append({"kind": "rej_char", "ch": ch, "pos": c % 3})
-                rej.append({"kind": "rej_Rforeign", "ch": ch})
+            # (also the few whose case mapping happens to be one letter of the alphabet - U+017F, U+0131, U+212A, U+0130: 'folding case'
+            # is said of the alphabet's own letters; they are outside it like every other non-ASCII character, in '.rad50' as in '^R')
+            rej.append({"kind": "rej_char", "ch": ch, "pos": c % 3})
+            rej.append({"kind": "rej_Rforeign", "ch": ch})
         # blank-like characters other than the space itself, raw and as escapes: not in the alphabet
         for ws in ["\t", "\x0b", "\x0c", "\xa0", "\u2003", "\u3000", "\x1f", "\x85", "\r", "\\t", "\\n", "\\x09", "\\r", "\\x0c", "\u2009", "\u202f", "\ufeff", "\x1c"]:
             for pos in range(3):
